@@ -254,7 +254,7 @@ func runWorkers(bin string, sc scnSpec, sd uint64, budget time.Duration, tmp str
 					// more than a few of these fail the check (exit 2).
 					cur, _ := os.ReadFile(out + ".cur")
 					run, _ := strconv.ParseUint(strings.TrimSpace(string(cur)), 10, 64)
-					if k := detectorCrashes.Add(1); k > 6 {
+					if k := detectorCrashes.Add(1); k > 6+int64(budget/(90*time.Second)) {
 						errs[w] = fmt.Errorf("worker %d: the race detector's runtime crashed %d times", w, k)
 						return
 					}
@@ -306,7 +306,7 @@ func runWorkers(bin string, sc scnSpec, sd uint64, budget time.Duration, tmp str
 	return all, nil
 }
 
-const raceRunsPerProcess = 400
+const raceRunsPerProcess = 200
 
 var detectorCrashes atomic.Int64
 
